@@ -350,6 +350,14 @@ def run_variant(prog, R, variant, bindings, specs):
 
     out = {"fail": None, "model": None, "args": None, "caller_args": None, "skipped": None}
     vr = random.Random(variant["seed"])
+    # between two builds the caller goes on using its containers: every list it once handed to a constructor is
+    # emptied / extended again (the dataflow stays what was constructed)
+    for lst in getattr(R, "keep", []):
+        if isinstance(lst, list):
+            if vr.random() < 0.5:
+                lst.clear()
+            elif R.vars:
+                lst.append(next(iter(R.vars.values())))
     margs = L.main_args(prog)
     used = L.used_args(prog)
     order = list(R.inputs)  # the caller's dict order of the default build: in<id>
